@@ -34,7 +34,9 @@ def run(tier):
     # the recorded finding: a release that reaches the store after the lease ran out
     out, _ = lk.drive(c, "latedelete", "latedelete")
     lk.validate(c, out, FLAGS, "latedelete", chunks=1)
-    c.assumptions += ["leases of live holders are renewed before they run out (lease set to 1 h; time plays no role)",
+    lease_handoff(c)
+    c.assumptions += ["leases of live holders are renewed before they run out (lease set to 1 h; time plays no role) - except in the real-time "
+                      "hand-off scenarios (leases 200-400 ms), where the library's own renewal has to keep the new holder's record alive",
                       "a release reaches the store within the remaining lease, except in the directed late-delete history (known finding)",
                       "acq is logged after the acquiring call returned and rel before Unlock is invoked: a logged overlap is a real one"]
     return c.finish(rule="schedules = command histories of every transition of KvLock.tla (2 callers on 2 lockers, 2 callers sharing a locker"
@@ -43,3 +45,17 @@ def run(tier):
                          "random schedules on 2-4 callers and ungated stress on the in-memory and Redis(miniredis) backends; every recorded "
                          "history validated by TLC against LockTrace.tla with mutual exclusion enforced"
                          % ("" if c.quick() else ", 3 callers"))
+
+
+def lease_handoff(c):
+    """Mutual exclusion under REAL leases: a caller that waited most of a lease period for the lock acquires it and holds for two
+    periods while a contender polls TryLock (timed events validated by LeaseTrace.tla; stalled runs are repeated, never judged)."""
+    import json
+    import c05
+    out = c.path("trace", "lease-handoff.ndjson")
+    c.run_vh(["drive", "lease", "-seed", c.seed, "-out", out, "-x", "mode=handoff", "-x", "tier=" + c.tier], timeout=900)
+    c.extra["lease_handoff_runs"] = json.load(open(out + ".stats"))
+    before = len(c.violations)
+    c05.validate(c, out, "handoff")
+    for v in c.violations[before:]:
+        v["sig"] = "lock: the lease of a holder that had waited for the lock lapsed while it held it / another caller acquired (real-time hand-off)"
